@@ -42,7 +42,7 @@ ASSUMPTIONS = [
 
 NETWORK_FAULTS = {"duplicate", "delay", "drop", "late_before_next", "replay_earlier", "replay_create"}
 MANIPS = ["flip_identifier", "flip_key", "flip_auth", "flip_candidates", "flip_cid", "substitute", "swap_other",
-          "replay_earlier", "duplicate", "delay", "drop", "late_before_next", "flip_candidates_then_original", "impostor"]
+          "replay_earlier", "duplicate", "delay", "drop", "late_before_next", "flip_candidates_then_original", "impostor", "substitute_empty"]
 
 
 def parse_created(msg: bytes) -> dict | None:
@@ -181,6 +181,20 @@ class Run:
                     auth = crypto_auth(s1, Yp)
                     data[base + cd["key_off"]:base + cd["key_off"] + len(cd["key"])] = Yp
                     data[base + cd["auth_off"]:base + cd["auth_off"] + 32] = auth
+                    self.wire_Y.append(bytes(Yp))
+                    self.attacker_s1 = s1
+                elif kind == "substitute_empty":
+                    # like "substitute", and the part behind the authenticator (the encrypted candidate list) is left
+                    # out altogether
+                    X = self.create_X.get((fl.src, fl.dst, cell["circuit_id"]))
+                    if X is None:
+                        return None
+                    Yp = attacker.get_crypt_pk()
+                    s1 = attacker.diffie_hellman(X)
+                    auth = crypto_auth(s1, Yp)
+                    data[base + cd["key_off"]:base + cd["key_off"] + len(cd["key"])] = Yp
+                    data[base + cd["auth_off"]:base + cd["auth_off"] + 32] = auth
+                    del data[base + cd["rest_off"]:]
                     self.wire_Y.append(bytes(Yp))
                     self.attacker_s1 = s1
                 elif kind == "swap_other":
